@@ -1,6 +1,7 @@
 package main
 
 import (
+	"sync"
 	"fmt"
 	"sort"
 	"go/token"
@@ -16,11 +17,43 @@ func (e *lfEngine) doCall(fr *lfFrame, st *lfState, x *ssa.Call, k func(st *lfSt
 	cc := &x.Call
 	// ---- builtins
 	if b, ok := cc.Value.(*ssa.Builtin); ok {
+		if (b.Name() == "min" || b.Name() == "max") && len(cc.Args) == 2 {
+			// exact: the result is one of the arguments, decided by their order
+			a0, ok0 := e.val(fr, st, cc.Args[0]).(vInt)
+			a1, ok1 := e.val(fr, st, cc.Args[1]).(vInt)
+			if ok0 && ok1 && a0.B == nil && a1.B == nil {
+				lo, hi := a0, a1 // branch 1: a0 ≤ a1
+				forks := []struct {
+					c   Cons
+					res vInt
+				}{{leq(a0.E, a1.E), lo}, {leq(a1.E.add(linConst(1), 1), a0.E), hi}}
+				if b.Name() == "max" {
+					forks[0].res, forks[1].res = hi, lo
+				}
+				n := 0
+				for i, f := range forks {
+					if infeasibleWith(st.cons, f.c) {
+						continue
+					}
+					f2, s2 := fr, st
+					if i == 0 {
+						f2, s2 = fr.cloneEnv(), st.clone()
+					}
+					s2.cons = append(s2.cons, f.c)
+					n++
+					k(s2, f.res, f2)
+				}
+				if n > 0 {
+					return
+				}
+			}
+		}
 		k(st, e.builtin(fr, st, x, b.Name()), fr)
 		return
 	}
 	name := calleeName(cc)
 	if e.bits {
+		name = e.roleName(cc, name)
 		if res, ok := e.bitsIntercept(fr, st, x, name); ok {
 			k(st, res, fr)
 			return
@@ -115,16 +148,28 @@ func (e *lfEngine) tracksSig(sig *types.Signature) bool {
 	if e.tracksResult(sig) {
 		return true
 	}
-	if rv := sig.Recv(); rv != nil && (isIntType(rv.Type()) || sliceLike(rv.Type())) {
+	if rv := sig.Recv(); rv != nil && (isIntType(rv.Type()) || sliceLike(rv.Type()) || pointsToStruct(rv.Type())) {
 		return true
 	}
 	for i := 0; i < sig.Params().Len(); i++ {
 		t := sig.Params().At(i).Type()
-		if isIntType(t) || sliceLike(t) {
+		if isIntType(t) || sliceLike(t) || pointsToStruct(t) {
 			return true
 		}
 	}
 	return false
+}
+
+// pointsToStruct: a pointer to a struct — the callee can read and write the
+// fields the caller's state tracks (a helper extracted from a decoder or
+// serialiser, say), so it is interpreted in the caller's context.
+func pointsToStruct(t types.Type) bool {
+	p, ok := t.Underlying().(*types.Pointer)
+	if !ok {
+		return false
+	}
+	_, ok = p.Elem().Underlying().(*types.Struct)
+	return ok
 }
 
 // tracksResult: does the signature return something the analysis tracks
@@ -342,9 +387,13 @@ func (e *lfEngine) builtin(fr *lfFrame, st *lfState, x *ssa.Call, name string) l
 		if e.bits && e.onStore != nil && e.quiet == 0 {
 			dv, _ := e.val(fr, st, args[0]).(vSlice)
 			src := e.renderVal(e.val(fr, st, args[1]))
-			if cv, ok := args[1].(*ssa.Convert); ok {
-				// []byte(string field)
-				if ld, ok := cv.X.(*ssa.UnOp); ok {
+			// []byte(string field), or the string field itself (copy accepts a string source)
+			sv := args[1]
+			if cv, ok := sv.(*ssa.Convert); ok {
+				sv = cv.X
+			}
+			if ld, ok := sv.(*ssa.UnOp); ok && ld.Op == token.MUL {
+				if bt, ok := ld.Type().Underlying().(*types.Basic); ok && bt.Kind() == types.String {
 					if p, ok := e.val(fr, st, ld.X).(vPtr); ok && p.Obj == e.recvObj {
 						src = "f:" + strings.TrimPrefix(p.Path, ".")
 					}
@@ -734,6 +783,54 @@ func concatLE(parts []*bv) *bv {
 	}
 	return out
 }
+
+// roleName maps a module helper that is recognised by what it is (shape or
+// signature) to the canonical name the bit-provenance summaries are keyed by,
+// so that renaming an unexported helper does not change any layout.
+// normSig is sigKey with the byte alias spelled uint8.
+func normSig(sig *types.Signature) string {
+	return strings.ReplaceAll(sigKey(sig), "byte", "uint8")
+}
+
+func (e *lfEngine) roleName(cc *ssa.CallCommon, name string) string {
+	f := cc.StaticCallee()
+	if f == nil || f.Blocks == nil || f.Signature.Recv() != nil || !e.c.InModule(f) {
+		return name
+	}
+	roleMu.Lock()
+	defer roleMu.Unlock()
+	if r, ok := roleCache[f]; ok {
+		if r != "" {
+			return r
+		}
+		return name
+	}
+	r := ""
+	switch normSig(f.Signature) {
+	case "func([]uint8)(uint8)":
+		if checksumShape(f) {
+			r = modPath + "/pkg/ipmi.checksum"
+		}
+	case "func(uint8)(time.Duration)":
+		if f.Pkg != nil && f.Pkg.Pkg.Path() == modPath+"/pkg/dcmi" {
+			r = modPath + "/pkg/dcmi.rollingAvgPeriodDuration"
+		}
+	case "func(time.Duration)(uint8)":
+		if f.Pkg != nil && f.Pkg.Pkg.Path() == modPath+"/pkg/dcmi" {
+			r = modPath + "/pkg/dcmi.rollingAvgPeriodByte"
+		}
+	}
+	roleCache[f] = r
+	if r != "" {
+		return r
+	}
+	return name
+}
+
+var (
+	roleMu    sync.Mutex
+	roleCache = map[*ssa.Function]string{}
+)
 
 func (e *lfEngine) bitsIntercept(fr *lfFrame, st *lfState, x *ssa.Call, name string) (lfVal, bool) {
 	cc := &x.Call
